@@ -877,7 +877,7 @@ def check_C11(run):
                        "each lexed by the implementation (debug, release) and read by the extracted reference lexer; (type, channel, byte, payload) of every "
                        "token, (kind, byte) of every error and the literal buffer compared" % len(gen.OPEN_ATOMS))
     run.assumptions += ["the reference lexer Spec/RefLex.v is the executable form of the open-code grammar (DESIGN 6.2); proved about it: maximal whitespace/ampersand runs, first-closer comment extent, statement-position rule for '*'",
-                        "lexer = reference on macro-free text is established by execution of the extracted reference against the implementation, not by a theorem (partial)"]
+                        "theorem C11_lexer_is_reference: the lexer model (release profile) yields exactly the reference reading on every macro-free text; the model is tied to the implementation (debug and release) by the byte-for-byte correspondence run on the same inputs, and the implementation is also compared with the reference directly"]
     settle_break(run)
 
 
